@@ -76,7 +76,7 @@ JUDGES = {"sign": judge_sign}
 
 def shards(tier, seed):
     T = tier == "thorough"
-    return [{"name": "sign-%d" % i, "count": 3000 if T else 110, "first": i == 0} for i in range(16)]
+    return [{"name": "sign-%d" % i, "count": 5000 if T else 450, "first": i == 0} for i in range(16)]
 
 
 def gen(shard, rng, tier):
